@@ -557,8 +557,59 @@ fn cm_time(a: &[&str]) -> String {
     )
 }
 
+/// redeem_value <units> <vault amount> <unit supply>   calculate_redemption_value over the MockApi
+/// stake_roundtrip <xrd> <total stake> <unit supply>     stake xrd, then redeem the minted units against the grown pool
+fn validator_ops(a: &[&str]) -> String {
+    use radix_common::prelude::*;
+    use radix_engine::blueprints::consensus_manager::*;
+    let own = |b: u8| {
+        let mut n = [b; NodeId::LENGTH];
+        n[0] = EntityType::InternalFungibleVault as u8;
+        Own(NodeId(n))
+    };
+    let substate = ValidatorSubstate {
+        sorted_key: None,
+        key: Secp256k1PublicKey([0u8; 33]),
+        is_registered: true,
+        accepts_delegated_stake: true,
+        validator_fee_factor: Decimal::ZERO,
+        validator_fee_change_request: None,
+        stake_unit_resource: XRD,
+        stake_xrd_vault_id: own(1),
+        claim_nft: XRD,
+        pending_xrd_withdraw_vault_id: own(2),
+        locked_owner_stake_unit_vault_id: own(3),
+        pending_owner_stake_unit_unlock_vault_id: own(4),
+        pending_owner_stake_unit_withdrawals: Default::default(),
+        already_unlocked_owner_stake_unit_amount: Decimal::ZERO,
+    };
+    let redeem = |units: Decimal, vault: Decimal, supply: Decimal| {
+        let mut api = mock_api::MockApi::default();
+        api.answer("get_amount", &vault);
+        api.answer("get_total_supply", &Some(supply));
+        verif_calculate_redemption_value(units, &substate, &mut api)
+    };
+    match a[0] {
+        "redeem_value" => rd(redeem(dec(a[1]), dec(a[2]), dec(a[3]))),
+        _ => {
+            let (x, t, s) = (dec(a[1]), dec(a[2]), dec(a[3]));
+            match verif_calculate_stake_unit_amount(x, t, s) {
+                Err(_) => "err stake".to_string(),
+                Ok(units) => match (t.checked_add(x), s.checked_add(units)) {
+                    (Some(t2), Some(s2)) => match redeem(units, t2, s2) {
+                        Ok(v) => format!("ok {} {}", v.attos(), units.attos()),
+                        Err(_) => "err redeem".to_string(),
+                    },
+                    _ => "err pool".to_string(),
+                },
+            }
+        }
+    }
+}
+
 fn run(a: &[&str]) -> String {
     match a[0] {
+        "redeem_value" | "stake_roundtrip" => validator_ops(a),
         "cm_time" => cm_time(&a[1..]),
         "ac_run" => ac_run(&a[1..]),
         "tsv" => tsv(&a[1..]),
